@@ -1,8 +1,72 @@
 import Driver.Util
-open Lean
+import Driver.C04
+import Paroxy.Model.Report
+open Lean Paroxy Paroxy.Filter Paroxy.Costs Paroxy.Report
 
 namespace Driver.C17
 
-def handlers : List (String × Handler) := []
+def bucketLabel : Bucket → String
+  | .zero => "0"
+  | .q1 => "in ]0, 0.25["
+  | .q2 => "in [0.25, 0.5["
+  | .q3 => "in [0.5, 1["
+  | .pow lo => s!"in [{lo}, {2 * lo}["
+  | .noGroup => "(default: no group)"
+
+def opName : Operation → String
+  | .include => "include" | .exclude => "exclude" | .impart => "impart" | .hide => "hide"
+
+def spanJson (s : Span) : Json := Json.arr #[Json.num s.1, Json.num s.2]
+
+/-- `rep.run`: one recommender, 1..n `run_pipeline` calls, then the structured report. -/
+def run : Handler := fun j => do
+  let db ← C04.parseDB (← j.getObjVal? "db")
+  let orc ← C04.parseOracle (← j.getObjVal? "oracle")
+  let runs ← (← getArr j "runs").toList.mapM fun r => do
+    (← r.getArr?).toList.mapM C04.parseCommand
+  let strat ← C04.parseStrategy (← getStr j "strategy")
+  let sorting := if (← getStr j "sorting") == "lexicographic" then Sorting.lexicographic else Sorting.byCostAndSloc
+  let grouping := (← getStr j "grouping") == "by_cost_bucket"
+  let slocs ← C04.pairs (← j.getObjVal? "sloc") fun v => v.getNat?
+  match addImported db with
+  | none => pure (Json.mkObj [("exc", "KeyError")])
+  | some progs =>
+    let c : Ctx := { orc, programs := progs, taxa := db.taxa, exportations := db.exportations }
+    let rec go (st : State) (log : List LogEntry) (rs : List (List Filter.Command)) : Except Err (State × List LogEntry) :=
+      match rs with
+      | [] => .ok (st, log)
+      | cmds :: t =>
+        match runLogged c C04.genRelations st cmds with
+        | .error e => .error e
+        | .ok (st', l) => go st' (log ++ l) t
+    match go (initState progs) [] runs with
+    | .error e => pure (C04.errJson e)
+    | .ok (st, log) =>
+      match assess strat progs st.knowledge st.selected with
+      | none => pure (Json.mkObj [("exc", "KeyError")])
+      | some assessed =>
+        let inp : Input := ⟨strat, progs, (fun p => (dictGet? slocs p).getD 0), st.knowledge, st.hiddenTaxa,
+          st.hiddenPrograms, assessed, sorting, grouping⟩
+        match body inp with
+        | none => pure (Json.mkObj [("exc", "KeyError")])
+        | some b =>
+          let bj := b.map fun (bk, secs) =>
+            Json.mkObj [("label", Json.str (bucketLabel bk)), ("count", Json.num secs.length),
+              ("sections", Json.arr (secs.map fun s =>
+                Json.mkObj [("path", Json.str (strOf s.path)), ("cost", Json.str (C04.ratStr s.cost)),
+                  ("rows", Json.arr (s.rows.map fun r => Json.arr #[Json.str (strOf r.taxon),
+                    Json.str (C04.ratStr r.cost), Json.arr (r.spans.map spanJson).toArray]).toArray)]).toArray)]
+          let sj := (summary progs.length log).map fun (n, i, op, k) =>
+            Json.arr #[Json.num n, Json.num i, Json.str (opName op), Json.num k]
+          pure (Json.mkObj [("body", Json.arr bj.toArray), ("summary", Json.arr sj.toArray),
+            ("initially", Json.num progs.length), ("stdout", C04.sortedStrs (stdoutSelection st))])
+
+/-- `rep.bucket`: `cost_bucket` of a rational. -/
+def bucket : Handler := fun j => do
+  let n ← getInt j "num"
+  let d ← getInt j "den"
+  pure (Json.str (bucketLabel (costBucket ((n : Rat) / (d : Rat)))))
+
+def handlers : List (String × Handler) := [("rep.run", run), ("rep.bucket", bucket)]
 
 end Driver.C17
